@@ -19,6 +19,9 @@ claimed={
  "C08":dict(text="Bounded symbolic model checking, differential: (a) the same symbolic write sequence on a fresh writer and on a writer with a history (completed / abandoned / failed program, then Reset) whose buffer is recycled memory with arbitrary symbolic stale bytes must give byte-identical output; (b) library bytes are compared byte for byte with a reference encoder written in the harness from the pinned layout (literal type codes, big-endian, reverse varints, zig-zag, NUL, sorted tables, big-form rule), shapes enumerated, tags/kinds/values symbolic, plus table kernels over all 16-bit tags x 32-bit offsets and size-class boundary payloads; the library must read reference bytes (incl. absent tags) identically.",
   design="§4 C08", technique="SSA symbolic execution + SMT (z3): differential against an in-harness reference encoder and dirty-vs-fresh writer/buffer; native replay of models",
   note=NOTE_COMMON+" Additional trusted base: the ~200-line reference encoder/decoder in harness/internal/writer/zz_C08_layout.go. Shapes as C01 (<=3 free nodes), payload lengths 252..254/65535/65536 (thorough more), stale buffer 64 bytes (thorough 0/3/64). Outside: larger trees; a frozen golden corpus is not used."),
+ "C12":dict(text="Bounded symbolic model checking of call programs: K symbolic steps, each an arbitrary choice among 20 writer operations (fields, elements, nested begin, End/Build on any live or stale handle, Value, Any, Copy, Err, Reset, Free) applied to an arbitrary handle obtained so far, tags/values symbolic; 'a panic is reachable', stickiness and identity of the first error, well-formedness of every successful Build and clean state after Reset are solver-decided assertions on every feasible path.",
+  design="§4 C12", technique="SSA symbolic execution + SMT (z3) over symbolic operation sequences; native replay of models",
+  note=NOTE_COMMON+" K<=3 full alphabet (thorough 4), K=4 core alphabet (5), six directed prefixes + 2/4 steps (3/5). Outside: longer programs, auto-released writers after release."),
 }
 na={p:"check not yet built (work in progress, see DESIGN.md)" for p in props}
 na["C15"]="not applicable to solver-based checking: the parser is a goyacc LALR table interpreter over text/scanner building a pointer-rich tree; with symbolic characters the scanner's rune loops dominate, with symbolic tokens the deciding step would be enumeration, and the oracle would need a second parser (DESIGN.md §4 C15)"
